@@ -611,12 +611,9 @@ func (tree *MutableTree) enableFastStorageAndCommit() error {
 		return err
 	}
 
-	_, latestVersion, err := tree.ndb.getLatestVersion()
-	if err != nil {
-		return err
-	}
-
-	if err = tree.ndb.SetFastStorageVersionToBatch(latestVersion); err != nil {
+	// label the index with the version it was built from: if that is not the latest
+	// version, the mismatch forces a rebuild the next time the latest version is loaded
+	if err = tree.ndb.SetFastStorageVersionToBatch(tree.version); err != nil {
 		return err
 	}
 
